@@ -51,6 +51,7 @@ class C12(F.Check):
             F.Kernel("c12_pow_mod", u, [(u, "a"), (u, "e"), (u, "n")], "return %spow_mod(a, e, n);" % D, mode="wrap", family="pow_mod"),
             F.Kernel("c12_jacobi", "int32_t", [("int64_t", "a"), (u, "n")], "return %sjacobi_symbol(a, n);" % D, mode="ub", family="jacobi_symbol"),
             F.Kernel("c12_mr", "int32_t", [(u, "a"), (u, "n")], "return static_cast<int>(%smiller_rabin(a, n));" % D, mode="wrap", family="miller_rabin"),
+            F.Kernel("c12_mr_ub", "int32_t", [(u, "a"), (u, "n")], "return static_cast<int>(%smiller_rabin(a, n));" % D, mode="ub", family="miller_rabin"),
             F.Kernel("c12_fpf", u, [(u, "n")], "return %sfind_prime_factor(n);" % D, mode="ub", family="find_prime_factor"),
         ]
         ks += self.factor_path_kernels()
@@ -446,7 +447,7 @@ class C12(F.Check):
         # wraps onto n would be a false positive (it is one for the even n = 2^34 + 4, which the primality test never passes in).
         # For ODD n with n mod 8 in {3, 5, 7} (so certainly not squares) the solver shows that
         # no return within the first U iterations answers 'true'.
-        U_SQ = 5 if self.tier == "quick" else 24
+        U_SQ = 5 if self.tier == "quick" else 12
 
         def fn_sq(K, n, U_SQ=U_SQ):
             if isinstance(K["c12_is_square"], F.NativeHandle):
@@ -462,7 +463,7 @@ class C12(F.Check):
             pre = T.and_(T.eq(T.extract(n, 0, 0), T.const_bv(1, 1)), nonres, T.not_(e.unwind))
             return pre, T.and_(T.not_(e.ub), T.not_(e.ret))
         obs.append(F.Ob("is_perfect_square:odd_nonresidues_64bit", [("n", T.BV(64))], fn_sq, kernels=["c12_is_square"],
-                        routes=["cvc5-bv", "z3-bv"], timeout=200,
+                        routes=["cvc5-bv", "z3-bv"], timeout=200 if self.tier == "quick" else 500,
                         note="64-bit, bit-precise: odd n with n mod 8 != 1 (hence not a square) is never reported as a perfect square by "
                              "any return within the first %d Newton iterations (paths needing more iterations are outside the claim)" % U_SQ))
         WG = 6 if self.tier == "quick" else 8
@@ -536,7 +537,6 @@ class C12(F.Check):
                        "loops unwound with assertion" % WJ)
         ob.reinterpreted = True
         obs.append(ob)
-        WM = 4 if self.tier == "quick" else 5
         COMP, PRIME, BAD = 0, 1, 2      # enum PrimeResult { COMPOSITE, PROBABLY_PRIME, BAD_INPUT }
 
         def mr_model(a_, n_):
@@ -554,22 +554,23 @@ class C12(F.Check):
                     return PRIME
                 x = x * x % n_
             return COMP
-
-        def fn_mr(K, a, n, WM=WM):
-            if isinstance(K["c12_mr"], F.NativeHandle):
-                e = K["c12_mr"](T.zext(a, 64), T.zext(n, 64))
-                return T.TRUE, T.and_(T.not_(e.ub), T.eq(e.ret, T.const_bv(mr_model(a.attr, n.attr), 32)))
-            e = K["c12_mr"](a, n, unwind=6 * WM, inline_depth=3 * WM, width_map={64: WM, 32: WM})
-            vals = [mr_model(aa, nn) for nn in range(1 << WM) for aa in range(1 << WM)]
-            spec = table(T.concat(n, a), vals, WM)
-            pre = T.bvcmp("ult", a, T.const_bv((1 << WM) - 2, WM))      # a + 2 must not wrap (documented: n >= a + 2)
-            return pre, T.and_(T.not_(e.ub), T.not_(e.unwind), T.eq(e.ret, spec))
-        ob = F.Ob("miller_rabin:at_%d_bits" % WM, [("a", T.BV(WM)), ("n", T.BV(WM))], fn_mr, kernels=["c12_mr"], routes=["z3-bv", "cvc5-bv"], timeout=300,
-                  note="IR re-interpreted at %d bits, pow_mod / mul_mod (recursive) / decompose inlined: BAD_INPUT, PROBABLY_PRIME (n prime or a strong pseudoprime "
-                       "to base a) or COMPOSITE exactly as the definition says; no UB and no unsigned wrap-around anywhere" % WM)
-        ob.reinterpreted = True
-        if self.tier == "thorough":      # measured: 60-130 s; the quick tier keeps jacobi_symbol, gcd, mul_mod and find_prime_factor
-            obs.append(ob)
+        # measured (z3-bv): wrap traps on, 4 bits: ~130 s; 5 bits: not decided in 300 s; UB traps only, 5 bits: ~60 s. Thorough tier only.
+        for kname, WM, what in (("c12_mr", 4, "no UB and no unsigned wrap-around anywhere"), ("c12_mr_ub", 5, "no UB")):
+            def fn_mr(K, a, n, WM=WM, kname=kname):
+                if isinstance(K[kname], F.NativeHandle):
+                    e = K[kname](T.zext(a, 64), T.zext(n, 64))
+                    return T.TRUE, T.and_(T.not_(e.ub), T.eq(e.ret, T.const_bv(mr_model(a.attr, n.attr), 32)))
+                e = K[kname](a, n, unwind=6 * WM, inline_depth=3 * WM, width_map={64: WM, 32: WM})
+                vals = [mr_model(aa, nn) for nn in range(1 << WM) for aa in range(1 << WM)]
+                spec = table(T.concat(n, a), vals, WM)
+                pre = T.bvcmp("ult", a, T.const_bv((1 << WM) - 2, WM))      # a + 2 must not wrap (documented: n >= a + 2)
+                return pre, T.and_(T.not_(e.ub), T.not_(e.unwind), T.eq(e.ret, spec))
+            ob = F.Ob("miller_rabin:at_%d_bits" % WM, [("a", T.BV(WM)), ("n", T.BV(WM))], fn_mr, kernels=[kname], routes=["z3-bv", "cvc5-bv"], timeout=500,
+                      note="IR re-interpreted at %d bits, pow_mod / mul_mod (recursive) / decompose inlined: BAD_INPUT, PROBABLY_PRIME (n prime or a strong "
+                           "pseudoprime to base a) or COMPOSITE exactly as the definition says; %s" % (WM, what))
+            ob.reinterpreted = True
+            if self.tier == "thorough":
+                obs.append(ob)
         WP = 4
 
         def fn_pm(K, a, x, n, WP=WP):
